@@ -32,6 +32,26 @@ BAD_LINES = {
 }
 
 
+# one field of a well-formed line of every kind (set, req, presentations, internal types incl. log / id request /
+# heartbeat / version, stream) replaced by a token that is certainly not an integer, or by a value out of range
+_SHAPES = ["1;0;1;0;0;21.5", "1;0;2;0;0;", "1;255;0;0;17;2.0", "1;0;0;0;6;desc", "0;255;3;0;9;TSF:MSG:READ", "0;255;3;0;14;Gateway startup complete.",
+           "255;255;3;0;3;", "1;255;3;0;0;57", "1;255;3;0;22;1111", "1;255;3;0;32;500", "0;255;3;0;2;2.3.2", "1;255;3;0;11;sketch",
+           "1;255;3;0;1;", "1;255;3;0;6;0", "1;255;4;0;0;0A0001005000D446", "1;255;3;1;13;", "0;255;0;0;18;2.3.2"]
+_TOKENS = ["?", "a", "", "1.0", "0x1", "-", "1e3", "1,0", "None", "nan"]
+_RANGES = {0: ["256", "-1", "1000"], 1: ["256", "-1"], 2: ["5", "-1", "9"], 3: ["2", "-1"]}
+for _shape in _SHAPES:
+    for _i in range(5):
+        for _tok in _TOKENS[(len(_shape) + _i) % 3::3]:
+            _f = _shape.split(";", 5)
+            _f[_i] = _tok
+            BAD_LINES["alpha"].append(";".join(_f) + "\n")
+        for _tok in _RANGES.get(_i, [])[:1 + (len(_shape) + _i) % 2]:
+            _f = _shape.split(";", 5)
+            _f[_i] = _tok
+            BAD_LINES["overrange"].append(";".join(_f) + "\n")
+    BAD_LINES["short"].append(";".join(_shape.split(";", 5)[:5]) + "\n")
+
+
 class _Obj:
     pass
 
